@@ -487,6 +487,8 @@ fixes and 177 produced by independent sub-agents given **only** the property tex
   scan in the hyphen splitter, a cached blank tail in `wrap_columns`, back-to-front filling of the optimal-fit result keyed to a
   disabled line counter) for C10, C12, C20, C06 — all reported as the checks stood (the last one also by U23's `get` postcondition).
 
+(`seeded_prompts/` keeps one example of the prompt of each wave style, and of the two harmless campaigns.)
+
 Each change was confirmed by `tools/seedverify.sh` (patch applies; suite passes in both feature sets; its demonstration fails with
 the patch and passes without). `tools/seedtest.py` applies each to `/repo`, runs the checks of the properties it breaks, and undoes
 it; `seeded/RESULTS.json` is its output and **`seeded/RESULTS.md` the full table** (seed, property, files changed, Verus obligations
